@@ -15,6 +15,7 @@ import (
 	"net"
 	"net/http"
 	"net/http/httptest"
+	"os"
 	"strings"
 	"sync"
 	"sync/atomic"
@@ -60,7 +61,22 @@ func randHex(n int) string {
 type wsClient struct {
 	c  net.Conn
 	br *bufio.Reader
+	// how this client's messages are put on the wire (RFC 6455 leaves it to the sender): a conforming
+	// server reassembles fragmented messages, and an empty message carries no octets of the packet
+	// stream, so nothing the gateway does may depend on either
+	frag    int  // > 0: messages longer than this go out as continuation frames
+	empties bool // an empty binary message now and then between the others
+	nsent   int
 }
+
+// wsDialSeq numbers the websocket clients of a run; the wire shape of a client follows from its number.
+var wsDialSeq int64
+
+// wsForce, when set, gives the next websocket client this shape (used to repeat a case exactly).
+var wsForce *wsClient
+
+// wsPlain switches the shaping off (VERIF_WS_PLAIN=1), for telling a shaping effect from another one.
+var wsPlain = os.Getenv("VERIF_WS_PLAIN") == "1"
 
 func dialWS(addr string, connID string, extraHeaders string) (*wsClient, error) {
 	c, err := net.DialTimeout("tcp", addr, 3*time.Second)
@@ -97,11 +113,61 @@ func dialWS(addr string, connID string, extraHeaders string) (*wsClient, error) 
 		}
 	}
 	c.SetReadDeadline(time.Time{})
-	return &wsClient{c: c, br: br}, nil
+	w := &wsClient{c: c, br: br}
+	if f := wsForce; f != nil { // a repeat of an earlier client's shape
+		w.frag, w.empties = f.frag, f.empties
+		wsForce = nil
+		return w, nil
+	}
+	if k := atomic.AddInt64(&wsDialSeq, 1); !wsPlain {
+		switch k % 4 {
+		case 1:
+			w.frag = []int{16, 125, 1000, 4096}[(k/4)%4]
+		case 3:
+			w.frag = []int{7, 300, 2000, 61}[(k/4)%4]
+			w.empties = true
+		}
+	}
+	return w, nil
 }
 
 // send writes one binary message (one frame, masked).
-func (w *wsClient) send(payload []byte) error { return w.sendFrame(0x82, payload) }
+func (w *wsClient) shape() string {
+	return fmt.Sprintf("websocket: messages longer than %d octets fragmented into continuation frames (0 = never), empty binary messages in between: %v", w.frag, w.empties)
+}
+
+func (w *wsClient) send(payload []byte) error {
+	w.nsent++
+	if w.empties && w.nsent%3 == 2 {
+		if err := w.sendFrame(0x82, nil); err != nil {
+			return err
+		}
+	}
+	f := w.frag
+	if f <= 0 || len(payload) <= f {
+		return w.sendFrame(0x82, payload)
+	}
+	if len(payload) > 64*f { // at most 64 frames per message: large streams stay fast
+		f = len(payload)/64 + 1
+	}
+	for pos := 0; pos < len(payload); pos += f {
+		end := pos + f
+		if end > len(payload) {
+			end = len(payload)
+		}
+		b0 := byte(0x00)
+		if pos == 0 {
+			b0 = 0x02
+		}
+		if end == len(payload) {
+			b0 |= 0x80
+		}
+		if err := w.sendFrame(b0, payload[pos:end]); err != nil {
+			return err
+		}
+	}
+	return nil
+}
 
 func (w *wsClient) sendFrame(b0 byte, payload []byte) error {
 	hdr := []byte{b0}
